@@ -5,7 +5,7 @@ from .readerlib import both_modes, canon, dump_dict, fixtures
 
 ID = 'C01'
 TARGETS = ['theories/Properties/C01.vo']
-THEOREMS = []   # filled below from the property file
+THEOREMS = core.theorems_of(ID)
 LEVEL = ('recorder model emit r / wf_replay; proved (see Properties/C01.v): the regenerated reader, writer, size and null tables have the same '
          'shape (kernel-checked on every run), rows survive write(read) bit for bit for every version; reader/writer models are tied to the code by '
          'differential runs (read->write->read->write on generated well-formed replays of every layout version, fixtures included), and the '
